@@ -134,3 +134,32 @@ func H_C26_outboundToSuspicious() {
 	zzverif.Assert(env.ln.sentTo(sus) == 0 && !sn.written(env.store, sus), "C26.initial_sync_skips_suspicious")
 	zzverif.Assert(len(env.ln.sends) == n+2, "C26.control_initial_sync_requested")
 }
+
+// H_C26_quarantinedWhileRunning: the quarantine takes effect on the running node.  Peer-sync is built while the
+// policy names nobody; then the swap service marks a peer (AddToSuspiciousPeerList reloads the same Policy
+// object in place - here the list member of that object is extended directly, the file round trip is the
+// subject of the policy entries).  From then on a poll / request-poll from that peer is neither answered nor
+// stored, the sweep sends it nothing, and RequestPoll to it is a no-op.
+// Bounds: 2 peers, 1 message, 1 sweep.
+func H_C26_quarantinedWhileRunning() {
+	zzverif.Unwind(64)
+	vClockStart()
+	sus := vPickSuspicious()
+	other := vOther(sus)
+	env := vNewEnv(nil, nil, vPeerA, vPeerB)
+	snap, _ := vSnapshotMsgSmall("poll")
+	mt := [2]messages.MessageType{messages.MESSAGETYPE_POLL, messages.MESSAGETYPE_REQUEST_POLL}[zzverif.Choice("msgtype", 2)]
+	ctx := context.Background()
+
+	env.pol.SuspiciousPeerList = append(env.pol.SuspiciousPeerList, sus)
+	sn := vSnapshot(env.store)
+
+	env.ps.handler.processMessage(ctx, vMsg(sus, mt, snap))
+	zzverif.Assert(len(env.ln.sends) == 0, "C26.peer_quarantined_at_runtime_not_answered")
+	zzverif.Assert(!sn.written(env.store, sus) && !sn.written(env.store, other), "C26.peer_quarantined_at_runtime_not_stored")
+	env.ps.poller.pollPeers(ctx, true)
+	zzverif.Assert(env.ln.sentTo(sus) == 0 && !sn.written(env.store, sus), "C26.sweep_skips_peer_quarantined_at_runtime")
+	n := len(env.ln.sends)
+	err := env.ps.RequestPoll(ctx, vID(sus))
+	zzverif.Assert(err == nil && len(env.ln.sends) == n, "C26.request_poll_to_peer_quarantined_at_runtime_is_noop")
+}
